@@ -18,6 +18,45 @@ enum Outcome {
     Panic,
 }
 
+fn compile_bytes(src: &str) -> Option<Vec<u8>> {
+    let src = src.to_string();
+    std::panic::catch_unwind(move || {
+        let path = PathBuf::from("/witness/main.sy");
+        let reader = |p: &Path| -> Result<String, Error> {
+            if p == Path::new("/witness/main.sy") { Ok(src.clone()) } else { Err(Error::FileNotFound(p.to_path_buf())) }
+        };
+        let tree = sylt_parser::tree(&path, reader, true).ok()?;
+        let mut out: Vec<u8> = Vec::new();
+        sylt_compiler::compile(&mut out, tree, None).ok()?;
+        Some(out)
+    }).ok().flatten()
+}
+
+// C14: pairs of programs that differ only in sugar must compile to the same bytes
+fn sugar_pairs() -> Vec<(String, String)> {
+    let wrap = |body: &str| format!("add :: fn a: int, b: int -> int do\n    ret a + b\nend\ninc :: fn a: int -> int do\n    ret a + 1\nend\nstart :: fn do\n{}\nend\n", body);
+    vec![
+        (wrap("    x := 1 -> add(2)"), wrap("    x := add(1, 2)")),
+        (wrap("    x := 1 -> add(2) -> add(3)"), wrap("    x := add(add(1, 2), 3)")),
+        (wrap("    x := 1 -> inc()"), wrap("    x := inc(1)")),
+        (wrap("    x := (1 + 2) -> add(3)"), wrap("    x := add(1 + 2, 3)")),
+        (wrap("    x := (1) + ((2))"), wrap("    x := 1 + 2")),
+        (wrap("    x := ((1 + 2)) * (3)"), wrap("    x := (1 + 2) * 3")),
+        (wrap("    x := add((1), (2))"), wrap("    x := add(1, 2)")),
+    ]
+}
+fn search_sugar() -> Option<(String, String)> {
+    for (a, b) in sugar_pairs() {
+        let x = compile_bytes(&a);
+        let y = compile_bytes(&b);
+        if x.is_none() || x != y {
+            return Some((a.clone(), format!("must compile to the same Lua as the desugared program `{}`; {}", b.replace('\n', "\\n"),
+                if x.is_none() { "it is rejected" } else if y.is_none() { "the desugared program is rejected" } else { "the emitted bytes differ" })));
+        }
+    }
+    None
+}
+
 fn compile(src: &str) -> Outcome {
     let src = src.to_string();
     let r = std::panic::catch_unwind(move || {
@@ -297,6 +336,7 @@ fn run_family(f: &str) -> Option<(String, String)> {
     match f {
         "prec" => search_prec(),
         "ops" => search_ops(),
+        "sugar" => search_sugar(),
         other => search_programs(other),
     }
 }
@@ -307,7 +347,7 @@ fn main() {
     if args.len() >= 3 && args[1] == "search" {
         let mut tried = 0usize;
         for f in args[2..].iter() {
-            tried += match f.as_str() { "prec" => prec_cases().len(), "ops" => 6 * operands().len() * operands().len(), o => programs(o).len() };
+            tried += match f.as_str() { "prec" => prec_cases().len(), "ops" => 6 * operands().len() * operands().len(), "sugar" => sugar_pairs().len(), o => programs(o).len() };
             if let Some((input, what)) = run_family(f) {
                 println!("{{\"family\": \"{}\", \"input\": \"{}\", \"observed\": \"{}\", \"inputs_tried\": {}}}", f, esc(&input), esc(&what), tried);
                 return;
@@ -324,6 +364,7 @@ fn main() {
                 // recompute through the search: the stored program is generated deterministically
                 search_ops().map(|(s, _)| &s == input).unwrap_or(false)
             }
+            "sugar" => sugar_pairs().into_iter().find(|(a, _)| a == input).map(|(a, b)| { let x = compile_bytes(&a); x.is_none() || x != compile_bytes(&b) }).unwrap_or(false),
             o => programs(o).into_iter().find(|(s, _)| s == input).map(|(s, w)| compile(&s) != w).unwrap_or(false),
         };
         if bad {
